@@ -5,7 +5,7 @@ turns it into `Fn` records: name, argument types, local types and basic blocks a
 Statements are compiled to closures lazily by interp.Interp on first execution.
 """
 import re, hashlib
-from .util import split_top
+from .util import split_top, top_find
 
 FN_RE = re.compile(r'^fn (.+?)\((.*)\) -> (.+) \{$')
 CONST_RE = re.compile(r'^(?:const|static(?: mut)?) (.+?): (.+) = \{$')
@@ -35,6 +35,7 @@ class CrateMir:
         self.crate, self.path = crate, path
         self.fns = {}          # name -> [Fn]
         self.by_last = {}      # last path segment -> [name]
+        self.statics = {}      # alloc id -> static item name
         self._load(path)
 
     def _load(self, path):
@@ -42,9 +43,20 @@ class CrateMir:
         i, n = 0, len(lines)
         while i < n:
             l = lines[i]
+            if l.startswith('alloc') and '(static: ' in l:
+                ms = re.match(r'^alloc(\d+) \(static: ([\w:]+)', l)
+                if ms: self.statics[int(ms.group(1))] = ms.group(2)
             if l and not l[0].isspace() and l.endswith('{'):
                 m = FN_RE.match(l)
-                mc = CONST_RE.match(l) if not m else None
+                mc = None
+                if not m and l.endswith(' = {') and l.startswith(('const ', 'static ')):
+                    body = re.sub(r'^(const|static( mut)?) ', '', l[:-4])
+                    k = top_find(body, ': ')
+                    if k > 0:
+                        class _MC:
+                            def __init__(s, a, b): s.a, s.b = a, b
+                            def group(s, i): return s.a if i == 1 else s.b
+                        mc = _MC(body[:k], body[k + 2:])
                 if m or mc:
                     start = i
                     if m:
